@@ -51,7 +51,7 @@ func c07Eligible(c *database.Command, o database.SearchOptions) bool {
 	return ok && (!o.PipelineOnly || c04IsPipeline(c))
 }
 
-func sameAnswer(db *database.Database, a, b []database.SearchResult) bool {
+func c07SameAnswer(db *database.Database, a, b []database.SearchResult) bool {
 	if len(a) != len(b) {
 		return false
 	}
@@ -99,7 +99,7 @@ func init() {
 			p := prev[i]
 			if p.Query == cur.Query && !p.Opts.UseFuzzy && p.Panic == "" && sameOptsButFuzzy(p.Opts, cur.Opts) {
 				mon.Tag("c07-paired-off-on")
-				if !sameAnswer(cur.DB, p.Results, off) {
+				if !c07SameAnswer(cur.DB, p.Results, off) {
 					mon.Hit("C07", "off-answer-not-reproducible", c07Detail(cur, nil))
 				}
 				break
@@ -110,7 +110,7 @@ func init() {
 		// (a)
 		if len(off) > 0 {
 			mon.Tag("c07-lexical-answer-exists")
-			if !sameAnswer(cur.DB, off, cur.Results) {
+			if !c07SameAnswer(cur.DB, off, cur.Results) {
 				offIDs := []int{}
 				for _, x := range off {
 					offIDs = append(offIDs, cur.DB.VerifIndexOf(x.Command))
